@@ -1,9 +1,10 @@
 """C17 — What runs is what was written: parsing is unambiguous and layout-insensitive."""
 from core import run_cases
 
-MODULES = ["Props.C17"]
+MODULES = ["Props.C17", "Props.C17Tie"]
 THEOREMS = ["Props.C17.c17_tokens", "Props.C17.c17_unique", "Props.C17.c17_comments", "Props.C17.c17_layout",
-            "Props.C17.c17_roundtrip", "Props.C17.c17_layout_insensitive"]
+            "Props.C17.c17_roundtrip", "Props.C17.c17_layout_insensitive",
+            "Props.C17Tie.variable_class", "Props.C17Tie.reference_class", "Props.C17Tie.header_class", "Props.C17Tie.quoted_header_class", "Props.C17Tie.fn_first_class", "Props.C17Tie.fn_rest_class", "Props.C17Tie.ws_class"]
 
 
 def run(check, tier):
